@@ -61,6 +61,7 @@ def plan(tier, seed):
     for m in sorted(models, key=lambda a: -cost.get(a, 1)):
         for g in GROUPS:
             specs.append({"model": m, "group": g})
+    specs.append({"model": "zen3", "group": "fixture"})
     return specs
 
 
@@ -84,6 +85,7 @@ def floors(tier):
         "history:package": n,
         "history:lib-path": 3 * max(1, n - 3),
         "history:in-memory-change": 2 * max(1, n - 3),
+        "history:cache-from-earlier-installation": 2,
         "history:header-only-load-first": 2 * max(1, n - 3),
         "in_memory_change_applied": 2 * max(1, n - 3),
         "history:isa-edited": max(1, n - 2),
@@ -959,6 +961,57 @@ def g_race(cx, staggered):
     g_race_cross(cx, staggered, cold)
 
 
+FIXTURE_KERNEL = """.L2:
+\tvmovapd\t(%rsi,%rax), %ymm0
+\tvaddpd\t(%rdx,%rax), %ymm0, %ymm1
+\tvmovapd\t%ymm1, (%rdi,%rax)
+\tvextractf128\t$1, %ymm1, 32(%rdi,%rax)
+\taddq\t%rcx, (%r8)
+\tmovq\t%r9, 8(%r8)
+\taddq\t$32, %rax
+\tcmpq\t%rbx, %rax
+\tjne\t.L2
+"""
+
+
+def g_fixture(cx):
+    """A cache file that an earlier installation left behind (fixtures/c17: model file + the cache the reference tree wrote for it,
+    see tools/make_cache_fixture.py): the tree under test either serves the same reports from it as without any cache, or does
+    not use it (changed INTERNAL_VERSION)."""
+    R = cx.R
+    fx = os.path.join(isolate.VERIF, "fixtures", "c17")
+    meta = os.path.join(fx, "meta.json")
+    if not os.path.exists(meta):
+        R.count("fixture_absent")
+        return
+    import json as _json
+
+    info = _json.load(open(meta))
+    kfile = os.path.join(cx.base, "fixture-kernel.s")
+    with open(kfile, "w") as f:
+        f.write(FIXTURE_KERNEL)
+    cx.kernels = [kfile] + cx.kernels[:2]
+    cx.argvs = [["--arch", cx.model, k] for k in cx.kernels]
+    cx.files = [(cx.model, os.path.join(fx, "zen3.yml")), cx.files[1]]
+    hA, resA = cold_reference(cx)
+    cold = resA["reports"]
+    for where in ("data", "cache"):
+        h = cx.new_home(copies=True)
+        deny = [] if where == "data" else [cx.data_dir(h)]
+        if where == "data":
+            shutil.copyfile(os.path.join(fx, info["pickle"]), os.path.join(cx.data_dir(h), info["pickle"]))
+        else:
+            os.makedirs(cx.cache_dir(h), exist_ok=True)
+            shutil.copyfile(os.path.join(fx, info["pickle"]), os.path.join(cx.cache_dir(h), info["pickle"].lstrip(".")))
+        res = cx.run(h, deny=deny)
+        R.count("history:cache-from-earlier-installation")
+        served = any(e["ev"] == "get" and e["result"] == "hit" and os.path.basename(e["file"]).startswith(cx.model) for e in res["events"])
+        R.count("earlier_cache_served" if served else "earlier_cache_not_used")
+        judge(cx, res, cold, "cache-from-earlier-installation", "first-run", variant=where, diff_key="cache/report-differs/cache-written-by-earlier-code")
+        res = cx.run(h, deny=deny)
+        judge(cx, res, cold, "cache-from-earlier-installation", "second-run", variant=where, diff_key="cache/report-differs/cache-written-by-earlier-code")
+
+
 def partner_of(model):
     isa = isolate.isa_of(model)
     if isa == "aarch64":
@@ -1057,6 +1110,8 @@ def _run(model, group, kernels, seed, tier, R, only=None):
             g_race(cx, False)
         elif group == "race-staggered":
             g_race(cx, True)
+        elif group == "fixture":
+            g_fixture(cx)
         else:
             raise ValueError(group)
     finally:
